@@ -333,6 +333,7 @@ def r145(ctx):
 
 def run(ctx):
     ctx.rule("R-14.5", "path-file writers write values as they are: 0.0 is never mistaken for a missing value", floor=1)
+    ctx.rule("R-14.6", "no `for` variable of the path storage / loading code is read after its loop has ended", floor=8)
     ctx.rule("R-14.1", "traj.txt column roles and the trajectory sub-directory agree between writer and reader", floor=9)
     ctx.rule("R-14.2", "order.txt / energy.txt layouts and file names agree between writer and readers", floor=7)
     ctx.rule("R-14.3", "deletion safety (C08 R-8.3)", floor=5)
@@ -342,9 +343,12 @@ def run(ctx):
     ctx.attempt(r143, ctx)
     ctx.attempt(r144, ctx)
     ctx.attempt(r145, ctx)
+    from .shared import stale_loop_variable
+    ctx.attempt(stale_loop_variable, ctx, "R-14.6", [FORMATTER, PATH], None, " (another frame / file than the one being stored or loaded is handled)")
 
 
 VARIANTS = [
+    B("c14-order-line-after-loop", FORMATTER, "        for i, phasepoint in enumerate(path.phasepoints):\n            yield self.format_data(i, phasepoint.order)", "        for i, phasepoint in enumerate(path.phasepoints):\n            pass\n        yield self.format_data(i, phasepoint.order)", "R-14.6", control=True),
     B("c14-traj-columns-swapped", FORMATTER, "            yield self.FMT.format(i, filename_short, idx, vel)", "            yield self.FMT.format(i, idx, filename_short, vel)", "R-14.1", control=True),
     B("c14-vel-convention-inverted", FORMATTER, "            vel = -1 if phasepoint.vel_rev else 1", "            vel = 1 if phasepoint.vel_rev else -1", "R-14.1"),
     B("c14-full-filename-written", FORMATTER, "            yield self.FMT.format(i, filename_short, idx, vel)", "            yield self.FMT.format(i, filename, idx, vel)", "R-14.1"),
